@@ -8,8 +8,7 @@ NOT_APPLICABLE = {
     'C14': 'Not claimed in this revision: the property rests on trigonometric identities (sin/cos/atan2/acos of the six Dubins words, the '
            'Reeds-Shepp families, curve integration) that no SAT/SMT back end available here decides; the only encodable slice (minimum '
            'selection over stubbed word solvers) was planned (DESIGN.md §4) but not built.',
-    'C15': 'Not claimed in this revision: the direct informed sampler is Eigen SVD/rotation + tgamma/pow measure + hyperspheroid geometry, '
-           'outside the decidable fragment; the accept/reject control logic of the rejection sampler was planned (DESIGN.md §4) but not built.',
+
 
     'C19': 'Thread schedules of std::thread/std::mutex code are outside the encodable fragment of the IR->C->CBMC route '
            '(atomics are translated sequentially, libstdc++ threading bottoms out in pthread/futex externs, multi-threaded '
